@@ -63,6 +63,7 @@ class Acc:
         self.unmirrored = collections.Counter()
         self.sigs = collections.Counter()
         self.depth = collections.Counter()
+        self.features = collections.Counter()
         self.outcomes = collections.Counter()
         self.profiles = collections.Counter()
         self.distinct, self.nontrivial = set(), set()
@@ -113,9 +114,12 @@ def process(ctx, acc, lines):
         acc.profiles[h.get("profile")] += 1
         func = h.get("site", "-").split("@")[-1]
         srcfile = h.get("site", "-").split("@")[0]
-        key = re.sub(r"(^| )(ev|dp|shadow|sk)=\S+", "", v)
+        key = re.sub(r"(^| )(ev|dp|fx|shadow|sk)=\S+", "", v)
         acc.distinct.add(hash(key))
         kv = parse_kv(v)
+        fx = kv.get("fx", "-")
+        if fx != "-":
+            acc.features.update(fx.split(","))
         dp = kv.get("dp", "-")
         if dp != "-":
             f = dp.split(":")
@@ -243,6 +247,7 @@ def run(ctx):
         "steps_per_profile": dict(acc.profiles),
         "signatures": dict(acc.sigs),
         "depth_histogram": dict(acc.depth),
+        "dataplane_features_histogram": dict(acc.features),
         "generator_tags": dict(tags),
         "optional_spec_fields_total": g.get("optional_fields_total"),
         "optional_spec_fields_populated_in_some_case":
